@@ -254,6 +254,7 @@ class ATP_Store:
                 conversion = min(self.nadh, cost - balance)
                 self.nadh -= conversion
                 self.atp += conversion
+                balance = self.atp
                 if not self.silent:
                     print(f"🔄 [Metabolism] Converted {conversion} NADH → ATP")
 
